@@ -187,7 +187,7 @@ def run_history(seed, env, res):
     kind = None
     try:
         for step in range(rnd.randint(2, 9)):
-            act = rnd.choice(["new", "same", "new", "scroll", "drop", "add", "clear", "shift", "shift", "popup", "popup"])
+            act = rnd.choice(["new", "same", "new", "scroll", "drop", "add", "clear", "shift", "shift", "popup", "popup", "clear_images"])
             if act == "popup" and top is not None and kind == "popup":
                 # the pop-up is dismissed: what it covered shows again, unchanged
                 kind, top = top._vf_under
@@ -231,6 +231,29 @@ def run_history(seed, env, res):
                     r.contents[0] = (w0, r.options("given", a))
             elif act == "scroll" and isinstance(top, urwid.ListBox):
                 top.keypress(size, rnd.choice(["down", "up", "page down", "page up"]))
+            elif act == "clear_images" and top is not None:
+                # the application clears images itself (all of them or those of some
+                # widgets; at once or with the next flush) and then redraws something that
+                # was invalidated: the redraw puts back every image of its canvas
+                now = rnd.random() < 0.5
+                chosen = [] if rnd.random() < 0.5 else rnd.sample(widgets, rnd.randint(1, len(widgets)))
+                env.capturing = True
+                env.take()
+                try:
+                    screen.clear_images(*chosen, now=now)
+                    direct = env.take()
+                finally:
+                    env.capturing = False
+                # (what went to the terminal directly arrives before the buffered output)
+                T.feed(direct.decode("utf-8", "replace"))
+                # (like clear(), an explicit clear is not a redraw: what it has written by
+                # now is fed separately, not held against the redraw's bracket)
+                T.feed(buf.getvalue())
+                buf.seek(0)
+                buf.truncate()
+                top._invalidate()
+                act += ":%d%s" % (len(chosen), "now" if now else "")
+                res.count("explicit clear_images() calls followed by a redraw" + (" (now=True)" if now else ""))
             elif act == "clear":
                 T.deletes = []
                 screen.clear()
